@@ -101,6 +101,7 @@ package util
 //@   requires (hex >= 48 && hex <= 57) || (hex >= 97 && hex <= 102) || (hex >= 65 && hex <= 70)      #hex-char
 //@   assigns nothing
 //@   ensures k == fn.Children[HexIdx(hex)]
+//@   ensures k != nil ==> NumCh(fn) >= 1                                                #a-child-counts
 
 //@ func (*ValueNode).GetValueBytes returns (b)
 //@   props C15 C01
@@ -351,9 +352,10 @@ package util
 // Canonical shape (C02) of a node that is stored in the trie: an extension has a non-empty path and
 // points to a branch; a leaf carries a value; a branch has two children, or one child and a value.
 //@ pred Canon(n Node) = n != nil && !(n is *ValueNode)
-//@    | && (n is *ExtensionNode ==> n.(*ExtensionNode) != nil && len(n.(*ExtensionNode).Path) > 0 && len(n.(*ExtensionNode).NodeKey) > 0 && KeyIsFull(n.(*ExtensionNode).NodeKey))
+//@    | && (n is *ExtensionNode ==> n.(*ExtensionNode) != nil && len(n.(*ExtensionNode).Path) > 0 && len(n.(*ExtensionNode).NodeKey) == 32 && KeyIsFull(n.(*ExtensionNode).NodeKey))
 //@    | && (n is *LeafNode ==> n.(*LeafNode) != nil && HasVal(n.(*LeafNode).Value) && ValNodeOK(n.(*LeafNode).Value))
-//@    | && (n is *FullNode ==> n.(*FullNode) != nil && ValNodeOK(n.(*FullNode).Value) && (NumCh(n.(*FullNode)) >= 2 || (NumCh(n.(*FullNode)) >= 1 && HasVal(n.(*FullNode).Value))))
+//@    | && (n is *FullNode ==> n.(*FullNode) != nil && ValNodeOK(n.(*FullNode).Value) && (NumCh(n.(*FullNode)) >= 2 || (NumCh(n.(*FullNode)) >= 1 && HasVal(n.(*FullNode).Value)))
+//@    |       && (forall i :: 0 <= i && i < 16 ==> n.(*FullNode).Children[i] == nil || len(n.(*FullNode).Children[i]) == 32))
 // Well-formed paths inside nodes.
 //@ pred PathsWF(n Node) = (n is *ExtensionNode ==> HexPath(n.(*ExtensionNode).Path)) && (n is *LeafNode ==> HexPath(n.(*LeafNode).Path))
 
@@ -373,6 +375,7 @@ package util
 //@   ensures fresh(r) && arr(r) != 0 && len(r) == len(s1) + len(s2)                                                 #fresh-concatenation
 //@   ensures forall i :: 0 <= i && i < len(s1) ==> r[i] == s1[i]                                                    #first-part
 //@   ensures forall i :: 0 <= i && i < len(s2) ==> r[len(s1) + i] == s2[i]                                          #second-part
+//@   ensures HexPath(s1) && HexPath(s2) ==> HexPath(r)                                                              #hex-in-hex-out
 
 // ---- node accessors ----
 //@ func (*FullNode).GetNumChildren returns (count)
@@ -395,6 +398,7 @@ package util
 //@   requires IsHex(hex)                                                                                             #hex-char
 //@   assigns fn.Children
 //@   ensures fn.Children == store(old(fn.Children), HexIdx(hex), child)                                              #one-slot-written
+//@   ensures NumCh(fn) == old(NumCh(fn)) + (child != nil ? 1 : 0) - (old(fn.Children[HexIdx(hex)]) != nil ? 1 : 0)      #child-count
 //@ func (*FullNode).GetValue returns (v)
 //@   props C01
 //@   assigns nothing
@@ -446,7 +450,7 @@ package util
 //@ func (*MerklePatriciaTrie).getNode returns (n, err)
 //@   trusted
 //@   assigns mpt.missingNodeKeys
-//@   ensures err == nil ==> n != nil && Canon(n) && PathsWF(n) && ((n is *FullNode) == KeyIsFull(key))
+//@   ensures err == nil ==> n != nil && Canon(n) && PathsWF(n) && ((n is *FullNode) == KeyIsFull(key)) && len(key) == 32
 //@   ensures err != nil ==> n == nil
 
 // insertNode stamps the origin, stores the node under its hash and records the change. Every node
@@ -465,8 +469,8 @@ package util
 //@ func (*FullNode).Clone returns (r)
 //@   trusted
 //@   assigns nothing
-//@   ensures r is *FullNode && r.(*FullNode) != nil && fresh(r.(*FullNode)) && HasVal(r.(*FullNode).Value) == HasVal(fn.Value)
-//@   ensures forall i :: 0 <= i && i < 16 ==> (r.(*FullNode).Children[i] == nil) == (fn.Children[i] == nil) && (fn.Children[i] != nil ==> KeyIsFull(r.(*FullNode).Children[i]) == KeyIsFull(fn.Children[i]))
+//@   ensures r is *FullNode && r.(*FullNode) != nil && fresh(r.(*FullNode)) && HasVal(r.(*FullNode).Value) == HasVal(fn.Value) && NumCh(r.(*FullNode)) == NumCh(fn)
+//@   ensures forall i :: 0 <= i && i < 16 ==> (r.(*FullNode).Children[i] == nil) == (fn.Children[i] == nil) && len(r.(*FullNode).Children[i]) == len(fn.Children[i]) && (fn.Children[i] != nil ==> KeyIsFull(r.(*FullNode).Children[i]) == KeyIsFull(fn.Children[i]))
 //@   ensures r.(*FullNode).Value != nil ==> fresh(r.(*FullNode).Value)
 //@   ensures ValNodeOK(fn.Value) ==> ValNodeOK(r.(*FullNode).Value)
 //@ func (*LeafNode).Clone returns (r)
@@ -497,13 +501,13 @@ package util
 //@   mode wrap
 //@   requires ValOK(value) && HexPath(path)
 //@   assigns heap(OriginTracker.Origin), heap(OriginTracker.Version)
-//@   ensures err == nil ==> n != nil && n is *LeafNode && key != nil && len(key) == 32 && !KeyIsFull(key)
+//@   ensures err == nil ==> n != nil && n is *LeafNode && key != nil && len(key) == 32 && !KeyIsFull(key) && Canon(n) && PathsWF(n)
 //@ func (*MerklePatriciaTrie).insertExtension returns (n, key, err)
 //@   props C01 C02
 //@   mode wrap
-//@   requires len(path) > 0 && HexPath(path) && len(key) > 0 && KeyIsFull(key)                   #canonical-extension
+//@   requires len(path) > 0 && HexPath(path) && len(key) == 32 && KeyIsFull(key)                  #canonical-extension
 //@   assigns heap(OriginTracker.Origin), heap(OriginTracker.Version)
-//@   ensures err == nil ==> n != nil && n is *ExtensionNode && key != nil && len(key) == 32
+//@   ensures err == nil ==> n != nil && n is *ExtensionNode && key != nil && len(key) == 32 && !KeyIsFull(key) && Canon(n) && PathsWF(n)
 
 //@ func (*MerklePatriciaTrie).getNodeValueRaw returns (v, err)
 //@   props C01
@@ -538,19 +542,22 @@ package util
 //@ func (*MerklePatriciaTrie).delete returns (n, k, err)
 //@   props C01 C02
 //@   mode wrap
+//@   ensures err == nil && n != nil ==> Canon(n) && PathsWF(n)                                                   #returns-canonical-node
 //@   requires HexPath(path)
-//@   assigns mpt.missingNodeKeys, heap(OriginTracker.Origin), heap(OriginTracker.Version), heap(LeafNode.Path), heap(LeafNode.Prefix), heap(ExtensionNode.Path), heap(ExtensionNode.NodeKey)
+//@   assigns mpt.missingNodeKeys, heap(OriginTracker.Origin), heap(OriginTracker.Version)
 //@   ensures err == nil && n != nil ==> k != nil && len(k) == 32 && ((n is *FullNode) == KeyIsFull(k)) && (n is *LeafNode || n is *FullNode || n is *ExtensionNode)
 //@   ensures err == nil && n == nil ==> k == nil
 //@   ensures err == nil && KeyIsFull(key) ==> n != nil                                                           #a-canonical-branch-does-not-vanish
+//@   ensures key == nil ==> err != nil                                                                            #nothing-below-a-nil-key
 
 // The remaining path is exhausted at node: only a value stored exactly here may be removed.
 //@ func (*MerklePatriciaTrie).deleteAfterPathTraversal returns (n, k, err)
 //@   props C01 C02
 //@   mode wrap
+//@   ensures err == nil && n != nil ==> Canon(n) && PathsWF(n)                                                   #returns-canonical-node
 //@   requires node != nil && Canon(node) && PathsWF(node)
-//@   assigns mpt.missingNodeKeys, heap(OriginTracker.Origin), heap(OriginTracker.Version), heap(LeafNode.Path), heap(LeafNode.Prefix), heap(ExtensionNode.Path), heap(ExtensionNode.NodeKey)
-//@   ensures (node is *LeafNode && len(node.(*LeafNode).Path) > 0) || (node is *FullNode && !HasVal(node.(*FullNode).Value)) || node is *ExtensionNode ==> err != nil      #absent-is-reported
+//@   assigns mpt.missingNodeKeys, heap(OriginTracker.Origin), heap(OriginTracker.Version)
+//@   ensures old((node is *LeafNode && len(node.(*LeafNode).Path) > 0) || (node is *FullNode && !HasVal(node.(*FullNode).Value)) || node is *ExtensionNode) ==> err != nil      #absent-is-reported
 //@   ensures err == nil && n != nil ==> k != nil && len(k) == 32 && ((n is *FullNode) == KeyIsFull(k)) && (n is *LeafNode || n is *FullNode || n is *ExtensionNode)
 //@   ensures err == nil && n == nil ==> k == nil
 //@   ensures err == nil && node is *FullNode ==> n != nil
@@ -558,8 +565,9 @@ package util
 //@ func (*MerklePatriciaTrie).deleteAtNode returns (n, k, err)
 //@   props C01 C02
 //@   mode wrap
+//@   ensures err == nil && n != nil ==> Canon(n) && PathsWF(n)                                                   #returns-canonical-node
 //@   requires node != nil && Canon(node) && PathsWF(node) && len(path) > 0 && HexPath(path)
-//@   assigns mpt.missingNodeKeys, heap(OriginTracker.Origin), heap(OriginTracker.Version), heap(LeafNode.Path), heap(LeafNode.Prefix), heap(ExtensionNode.Path), heap(ExtensionNode.NodeKey)
+//@   assigns mpt.missingNodeKeys, heap(OriginTracker.Origin), heap(OriginTracker.Version)
 //@   ensures err == nil && n != nil ==> k != nil && len(k) == 32 && ((n is *FullNode) == KeyIsFull(k)) && (n is *LeafNode || n is *FullNode || n is *ExtensionNode)
 //@   ensures err == nil && n == nil ==> k == nil
 //@   ensures err == nil && node is *FullNode ==> n != nil
